@@ -260,7 +260,7 @@ def case_strategy(isolated=False):
     @st.composite
     def build(draw):
         k = draw(st.integers(2, 3))
-        style = draw(st.sampled_from(["fresh", "shared-base", "register-model", "base-constants"]))
+        style = draw(st.sampled_from(["fresh", "shared-base", "register-model", "register-model", "base-constants", "base-constants"]))
         start = draw(st.sampled_from(["single", "single", "batch"]))
         full = lambda **kw: dict({"weeks": 0, "days": 0, "hours": 0, "minutes": 0, "seconds": 0, "milliseconds": 0, "microseconds": 0}, **kw)
         timeouts = [draw(st.sampled_from([{"hours": 1}, {"minutes": 5}, {"seconds": 30}, {"milliseconds": 500},
@@ -330,8 +330,8 @@ def plan(tier):
     n = 40 if tier == "quick" else 500
     # every run (interleaved and each solo replay) in its own freshly forked interpreter state; these shards come first
     # so that they also start from a pristine process when all shards run in one process
-    specs = [{"n": n, "isolated": True} for _ in range(8)]
-    specs += [{"n": n} for _ in range(8)]
+    specs = [{"n": n, "isolated": True} for _ in range(12)]
+    specs += [{"n": n} for _ in range(4)]
     return specs
 
 
